@@ -1709,3 +1709,157 @@ Example m06d_hypothesis_satisfiable :
   phase_objects_carried x_carried_case = true /\
   map (fun s => let '(cs, _, _, _) := s in cond_true cs CAvailable) (statuses (set_obs_s x_carried_case (SetCorr.model_run x_carried_case))) = [true].
 Proof. vm_compute. split; reflexivity. Qed.
+
+(** ** m01c, m01s, m02s: the phase-level C01 / C02 monitors on the member requests of an active pass *)
+From PKO Require Import AdoptionProofs.
+From PKOCorr Require Import C01Corr C02Corr C02Sound.
+
+Lemma judged_active_spec c m : judged_active c m = true ->
+  is_active m /\ desired_keys_nodup m /\ os_revision m <> 0%Z.
+Proof.
+  unfold judged_active. rewrite !andb_true_iff, negb_true_iff. intros [[Ha Hk] Hr].
+  split; [now apply is_activeb_spec|]. split; [now apply keys_nodup_iff|]. now apply Z.eqb_neq.
+Qed.
+
+(** the pass of an ObjectSet with a revision, as the phase-level lemmas see it *)
+Lemma judged_pass c m sw e r :
+  find_set (sc_sets c) (sc_kind c) (sc_ns c) (sc_name c) = Some m -> is_active m -> os_revision m <> 0%Z ->
+  SetCorr.model_run c = (sw, e, r) ->
+  (member_evs e = [] /\ w_store (sw_w sw) = sc_store c /\ (forall ms, In (SMeta ms) e -> keeps2 m (SMeta ms))) \/
+  exists mem1 sw1 sw2 pevs rem pr pre,
+    same_spec mem1 m /\ as_owner mem1 = as_owner m /\ w_store (sw_w sw1) = sc_store c /\
+    reconcile_phases_m (sc_force c) sw1 mem1 (as_owner m) (lookup_prev (sc_sets c) m) (os_phases m) [] (os_remotes mem1) = (sw2, pevs, rem, pr) /\
+    w_store (sw_w sw) = w_store (sw_w sw2) /\ member_evs e = member_evs pevs /\
+    Forall (keeps2 m) pre /\ after_loop2 mem1 sw2 pre pevs rem pr e r.
+Proof.
+  intros Ef Hact Hrev E.
+  assert (Ef' : find_set (sw_sets (sc_world c)) (sc_kind c) (sc_ns c) (sc_name c) = Some m) by exact Ef.
+  unfold SetCorr.model_run in E.
+  destruct (objectset_pass_active2 (sc_force c) (sc_world c) _ _ _ m sw e r Ef' Hact E) as [Hs|Hr].
+  - left. split; [eapply stopped2_members; eauto|]. split; [now destruct Hs|]. intros ms. eapply stopped2_meta; eauto.
+  - right. destruct Hr as (mem1 & sw1 & sw2 & pevs & rem & pr & pre & Hs & Hst1 & _ & _ & Hprev & Hrv & _ & Hrp & Hst & _ & _ & Hpre & Hal).
+    pose proof (as_owner_same _ _ Hs (Hrv Hrev)) as How. pose proof Hs as (_ & Hphs & _).
+    exists mem1, sw1, sw2, pevs, rem, pr, pre. rewrite How, Hprev, Hphs in Hrp.
+    split; [exact Hs|]. split; [exact How|]. split; [exact Hst1|]. split; [exact Hrp|]. split; [exact Hst|].
+    split; [eapply after_loop2_members; eauto|]. auto.
+Qed.
+
+Theorem m01c_sound (c : scase) : m01c (set_obs_s c (SetCorr.model_run c)) = true.
+Proof.
+  unfold m01c. rewrite target_model. destruct (SetCorr.model_run c) as [[sw e] r] eqn:E.
+  destruct (find_set (sc_sets c) (sc_kind c) (sc_ns c) (sc_name c)) as [m|] eqn:Ef; [|reflexivity].
+  change (judged_active (set_obs_s c (sw, e, r)) m) with (judged_active c m).
+  destruct (judged_active c m) eqn:Hj; [|reflexivity]. cbn [negb orb].
+  destruct (lifecycle_eqb (os_life m) LPaused) eqn:Hpa; [reflexivity|]. cbn [orb].
+  destruct (judged_active_spec c m Hj) as (Hact & Hnd & Hrev).
+  apply statuses_forall. intros rv cs co rm fph ok Hin. rewrite events_model in Hin.
+  destruct (find_cond cs CAvailable) as [cd|] eqn:Hcd; [|reflexivity].
+  destruct (creason_eqb (cd_reason cd) RCollisionDetected) eqn:Hre; [|reflexivity]. cbn [negb orb].
+  apply creason_eqb_spec in Hre.
+  assert (Hkeep : keeps2 m (SMeta (MStatus rv cs co rm fph ok)) ->
+                  option_eqb cond_eqb (find_cond (os_conds m) CAvailable) (Some cd) = true).
+  { cbn. intros (_ & [Ha|Ha] & _).
+    - rewrite <- Ha, Hcd. cbn. apply cond_eqb_refl'.
+    - rewrite Hcd in Ha. injection Ha as ->. discriminate. }
+  destruct (judged_pass c m sw e r Ef Hact Hrev E) as [(_ & _ & Hk)|(mem1 & sw1 & sw2 & pevs & rem & pr & pre & Hs & How & Hst1 & Hrp & _ & _ & Hpre & Hal)].
+  { now rewrite (Hkeep (Hk _ Hin)). }
+  assert (Hrp' : reconcile_phases_m (sc_force c) sw1 mem1 (as_owner mem1) (lookup_prev (sc_sets c) m) (os_phases mem1) [] (os_remotes mem1) = (sw2, pevs, rem, pr)).
+  { pose proof Hs as (_ & Hphs & _). now rewrite How, Hphs. }
+  destruct (after_loop2_meta _ _ _ _ _ _ _ _ _ _ _ _ _ Hrp' Hpre Hal Hin) as [Hk2|(f & ok' & Hf & He)].
+  { now rewrite (Hkeep Hk2). }
+  unfold tail_status in Hf. destruct pr as [e0| | |ctrlof failed].
+  - destruct (is_collision e0) eqn:Hcol; [|discriminate]. apply orb_true_iff. right.
+    destruct (rpm_collision (sc_force c) mem1 _ _ _ _ _ _ _ _ _ _ Hrp Hcol Hnd) as (ph & p & o & Hph & Hcl & Hp & Hl & Hm).
+    apply existsb_exists. exists p. split.
+    + apply in_flat_map. exists ph. split; [|exact Hp]. unfold locals. apply filter_In. split; [exact Hph|now rewrite Hcl].
+    + change (sc_store (set_obs_s c (sw, e, r))) with (sc_store c). rewrite <- Hst1. unfold spec_key. fold (key_of (as_owner m) p). rewrite Hl.
+      destruct Hm as (Hc & Hpm & Hn & Hu). unfold must_refuse_s. cbn [c_flavor c_force flavor_strat ow_id as_owner] in *.
+      change (sc_force (set_obs_s c (sw, e, r))) with (sc_force c). change (sc_sets (set_obs_s c (sw, e, r))) with (sc_sets c).
+      now rewrite Hc, Hpm, Hn, Hu.
+  - discriminate.
+  - injection Hf as <-. unfold status_ev, status_ev_f in He.
+    remember (fail_mem _ _) as fm eqn:Efm in He. injection He as _ -> _ _ _ _. subst fm.
+    rewrite fail_mem_available in Hcd. injection Hcd as <-. discriminate.
+  - injection Hf as <-. unfold status_ev_f in He.
+    remember (final_status _ _ _ _) as fs eqn:Efs in He. injection He as _ -> _ _ _ _. subst fs.
+    rewrite final_status_available_eq in Hcd. injection Hcd as <-. destruct failed; discriminate.
+Qed.
+
+Lemma obj_eqb_refl o : obj_eqb o o = true.
+Proof. now apply obj_eqb_spec. Qed.
+
+Lemma local_objects_in m ph p : In ph (os_phases m) -> ph_class ph = false -> In p (ph_objects ph) -> In p (flat_map ph_objects (locals m)).
+Proof. intros Hph Hc Hp. apply in_flat_map. exists ph. split; [|exact Hp]. unfold locals. apply filter_In. split; [exact Hph|now rewrite Hc]. Qed.
+
+(** C01 m1 on the member requests: every write is justified by the version read *)
+Lemma m1_set_sound (c : scase) m sw e r :
+  find_set (sc_sets c) (sc_kind c) (sc_ns c) (sc_name c) = Some m -> judged_active c m = true ->
+  SetCorr.model_run c = (sw, e, r) -> C01Corr.m1 (as_pcase (set_obs_s c (sw, e, r)) m) = true.
+Proof.
+  intros Ef Hj E. destruct (judged_active_spec c m Hj) as (Hact & Hnd & Hrev).
+  unfold C01Corr.m1. cbn [pc_events as_pcase]. rewrite members_model.
+  set (pc := as_pcase (set_obs_s c (sw, e, r)) m).
+  destruct (judged_pass c m sw e r Ef Hact Hrev E) as [(-> & _)|(mem1 & sw1 & sw2 & pevs & rem & pr & pre & Hs & How & Hst1 & Hrp & _ & -> & _)]; [reflexivity|].
+  apply forallb_forall. apply Forall_forall.
+  eapply (rpm_local_forall (sc_force c) (fun x => C01Corr.ev_okb pc x = true)); [|exact Hrp].
+  intros ph Hph Hcl w w' e1 r1 H1. unfold reconcile_phase in H1. destruct (flat_map _ (ph_objects ph)); [|injection H1 as _ <- _; constructor].
+  pose proof (rec_objs_justified _ _ _ _ _ _ _ _ _ _ _ H1) as HJ.
+  eapply Forall_impl; [|exact HJ]. intros x (p & rd & pre0 & post & Hin & Hx & Hp & Hm).
+  apply (ev_justified_okb pc x eq_refl). exists p, rd, pre0, post. split; [|auto].
+  cbn [pc pc_objects as_pcase]. eapply local_objects_in; eauto.
+Qed.
+
+(** C01 m2: an existing object that is not controlled and may not be adopted is untouched *)
+Lemma m2_set_sound (c : scase) m sw e r :
+  find_set (sc_sets c) (sc_kind c) (sc_ns c) (sc_name c) = Some m -> judged_active c m = true ->
+  SetCorr.model_run c = (sw, e, r) -> C01Corr.m2 (as_pcase (set_obs_s c (sw, e, r)) m) = true.
+Proof.
+  intros Ef Hj E. destruct (judged_active_spec c m Hj) as (Hact & Hnd & Hrev).
+  unfold C01Corr.m2. cbn [pc_between pc_teardown pc_objects pc_store pc_post pc_events pc_owner pc_flavor pc_force pc_prev as_pcase is_nil negb orb flavor_strat].
+  rewrite members_model, post_model.
+  change (sc_store (set_obs_s c (sw, e, r))) with (sc_store c). change (sc_force (set_obs_s c (sw, e, r))) with (sc_force c).
+  change (sc_sets (set_obs_s c (sw, e, r))) with (sc_sets c).
+  apply forallb_forall. intros p Hp.
+  destruct (lookup (desired_key (as_owner m) p) (sc_store c)) as [o|] eqn:El; [|reflexivity].
+  destruct (is_controller Native (ow_id (as_owner m)) o) eqn:Hc; [reflexivity|]. cbn [orb].
+  destruct (existsb _ (flat_map ph_objects (locals m))) eqn:Hex; [reflexivity|]. cbn [orb].
+  assert (Hgoal : lookup (desired_key (as_owner m) p) (w_store (sw_w sw)) = Some o /\
+                  Forall (fun x => ev_key x <> desired_key (as_owner m) p) (member_evs e)).
+  { destruct (judged_pass c m sw e r Ef Hact Hrev E) as [(-> & -> & _)|(mem1 & sw1 & sw2 & pevs & rem & pr & pre & Hs & How & Hst1 & Hrp & -> & -> & _)];
+      [split; [exact El|constructor]|].
+    eapply (rpm_untouched (sc_force c)); [exact Hrp|now rewrite Hst1|exact Hc|].
+    intros ph Hph Hcl q Hq Hk. destruct (permitted _ _ _ _ _ _) eqn:Ep; [|reflexivity]. exfalso.
+    assert (existsb (fun q0 => okey_eqb (desired_key (as_owner m) q0) (desired_key (as_owner m) p) &&
+                               permitted Native (sc_force c) (as_owner m) o (lookup_prev (sc_sets c) m) (po_cp q0)) (flat_map ph_objects (locals m)) = true).
+    { apply existsb_exists. exists q. split; [eapply local_objects_in; eauto|]. unfold key_of in Hk. rewrite Hk, okey_eqb_refl. exact Ep. }
+    congruence. }
+  destruct Hgoal as [-> Hev]. cbn. rewrite obj_eqb_refl. cbn.
+  apply forallb_forall. intros x Hx. rewrite Forall_forall in Hev. apply negb_true_iff. apply okey_eqb_neq. now apply Hev.
+Qed.
+
+Theorem m01s_sound (c : scase) : m01s (set_obs_s c (SetCorr.model_run c)) = true.
+Proof.
+  unfold m01s. rewrite m01_sound, m01c_sound. cbn [andb]. rewrite target_model.
+  destruct (SetCorr.model_run c) as [[sw e] r] eqn:E.
+  destruct (find_set (sc_sets c) (sc_kind c) (sc_ns c) (sc_name c)) as [m|] eqn:Ef; [|reflexivity].
+  change (judged_active (set_obs_s c (sw, e, r)) m) with (judged_active c m).
+  destruct (judged_active c m) eqn:Hj; [|reflexivity]. cbn [negb orb].
+  now rewrite (m1_set_sound c m sw e r Ef Hj E), (m2_set_sound c m sw e r Ef Hj E).
+Qed.
+
+Theorem m02s_sound (c : scase) : m02s (set_obs_s c (SetCorr.model_run c)) = true.
+Proof.
+  unfold m02s. rewrite target_model. destruct (SetCorr.model_run c) as [[sw e] r] eqn:E.
+  destruct (find_set (sc_sets c) (sc_kind c) (sc_ns c) (sc_name c)) as [m|] eqn:Ef; [|reflexivity].
+  change (judged_active (set_obs_s c (sw, e, r)) m) with (judged_active c m).
+  destruct (judged_active c m) eqn:Hj; [|reflexivity]. cbn [negb orb].
+  destruct (judged_active_spec c m Hj) as (Hact & Hnd & Hrev).
+  unfold C02Corr.monitor. cbn [pc_teardown pc_events as_pcase orb]. rewrite members_model.
+  set (pc := as_pcase (set_obs_s c (sw, e, r)) m).
+  destruct (judged_pass c m sw e r Ef Hact Hrev E) as [(-> & _)|(mem1 & sw1 & sw2 & pevs & rem & pr & pre & Hs & How & Hst1 & Hrp & _ & -> & _)]; [reflexivity|].
+  apply forallb_forall. apply Forall_forall.
+  eapply (rpm_local_forall (sc_force c) (fun x => C02Corr.ev_okb pc x = true)); [|exact Hrp].
+  intros ph Hph Hcl w w' e1 r1 H1. unfold reconcile_phase in H1. destruct (flat_map _ (ph_objects ph)); [|injection H1 as _ <- _; constructor].
+  apply Forall_forall. apply forallb_forall.
+  exact (rec_objs_c02 pc idw true (ph_objects ph) w [] [] w' e1 r1 (fun _ => eq_refl) eq_refl H1).
+Qed.
